@@ -139,6 +139,18 @@ add('C11',
     LAT_NOTE + UDF_NOTE + "The matcher itself is verified under C05/C06.",
     "Coq proof + vm_compute / exact-rational correspondence + per-frame oracle under explicit schedules", "5/C11")
 
+add('C12',
+    "Coq theorems about the full-match loop for ANY lattice search plugged in (answers only need the right length): every peak with elevation >= min_weight that is "
+    "not a zero point is unmatched XOR in a match; the zero point is never unmatched once a match exists; the weak set is exactly the complement of the weight filter; "
+    "angle_check separates accepted vectors from (anti)parallel by the limit and is symmetric; a match's lattice is the weighted fit of its peaks (C06). Tie: trace-driven "
+    "-- the answers of the real _find_best_vector_match are recorded at run time and fed to the Coq loop, whose (matches, unmatched, weak, number of oracle calls) must equal "
+    "the implementation's; termination premise and oracle postcondition are monitored on every trace.",
+    LAT_NOTE + "hdbscan is not installed: a deterministic sklearn-style stand-in clusterer is used (harness/stubs/hdbscan), as the property allows. The lattice search "
+    "(candidate vectors, clustering, figure of merit) is abstracted as an oracle: which lattice is chosen is NOT modelled; 'returns without raising', check() of returned "
+    "matches and the noise-free clause (read as: a complete n x m lattice patch of at most ten points containing the zero point) rest on the oracle (S). Termination is proved "
+    "only relative to the monitored premise that every accepted match removes a non-zero peak.",
+    "Coq proof (loop invariant by induction on fuel, pointwise selector algebra) + trace-driven correspondence + oracle", "5/C12")
+
 NOT_YET = "check not built yet in this round (work in progress; design in DESIGN.md section 5)"
 
 def main():
